@@ -99,7 +99,17 @@ def check_C01(tier, seed, rest):
     t0 = time.time()
     r = engine_a_all(tier, seed)
     v = [as_violation(f) for f in r["findings"] if is_munch(f)]
-    finish("C01", tier, seed, "model_checking", a_coverage(r), v, t0, ASSUME_A)
+    b = engine_b(tier, seed)
+    v += [b_violation(f) for f in b["findings"] if f["kind"] == "seq_full"]
+    from attempt import stages_run
+    st = stages_run("base", base_corpus(tier, seed), tier)
+    drift = ["after pass '%s' of Graph::new the graph of %s violates %s at path %s" % (x["stage"], x["def"], x["tag"], x["path"]) for x in st["viol"][:8]]
+    drift += drift_lines(b, None)
+    cov = a_coverage(r, {"graph_pass_snapshots_checked": st["graphs"], "graph_pass_states": st["tlc"]["distinct"], "graph_pass_violations": st["n_viol"],
+                         "graphlex_model_of_generated_code": b.get("graphlex"), "sequence_level_behaviours_replayed": b["behaviours"]})
+    cov["states"] += st["tlc"]["distinct"] + (b["graphlex"]["distinct"] if b.get("graphlex") else 0)
+    cov["transitions"] += st["tlc"]["states"] + (b["graphlex"]["states"] if b.get("graphlex") else 0)
+    finish("C01", tier, seed, "model_checking", cov, v, t0, ASSUME_A, drift)
 
 
 def check_C02(tier, seed, rest):
